@@ -233,7 +233,8 @@ def require_return(ck: Check, rule: str, summ: Summary, spec: Spec, expected: st
     construct = "%s returns %s" % (fi.qualname.replace("skepticoin.", ""), show(want))
     rets = summ.returns()
     uncond = [r for r in rets if not residual(r, ())]
-    if (len(rets) == 1 and uncond and rets[0].term == want) or (rets and same_function(summ, want)):
+    from .terms import untag as _untag
+    if (len(rets) == 1 and uncond and _untag(rets[0].term) == want) or (rets and same_function(summ, want)):
         ck.ok(rule, construct, what, rets[0].loc)
         return True
     if summ.unknown:
@@ -359,14 +360,17 @@ def function_value(summ: Summary) -> Optional[Term]:
         elif cond == C(True):
             val = r.term
         else:
-            val = ("ife", cond, r.term, val)
+            val = summ.norm.mk_ife(cond, r.term, val)
     return val
 
 
 def same_function(summ: Summary, want: Term) -> bool:
+    from .terms import untag
     got = function_value(summ)
     if got is None:
         return False
+    got = untag(got)
+    want = untag(want)
     if got == want:
         return True
     if any(r.loops for r in summ.returns()):
